@@ -188,6 +188,6 @@ Definition polled (u : N) (o : op) : list bytes :=
   end.
 
 Fixpoint count_ev (e : ev) (l : list ev) : N :=
-  match l with [] => 0 | x :: l' => (if ev_eqb x e then 1 else 0) + count_ev e l' end.
+  match l with [] => 0 | x :: l' => (if ev_eqb e x then 1 else 0) + count_ev e l' end.
 Fixpoint count_key (k : bytes) (l : list bytes) : N :=
-  match l with [] => 0 | x :: l' => (if beq x k then 1 else 0) + count_key k l' end.
+  match l with [] => 0 | x :: l' => (if beq k x then 1 else 0) + count_key k l' end.
